@@ -136,14 +136,14 @@ fn c20_crc_detects_byte_damage_len4() {
 #[kani::unwind(6)]
 #[kani::stub(crc32fast::Hasher::new, stub_hasher_new)]
 fn c20_crc_incremental() {
-    let data: [u8; 3] = kani::any();
+    let data: [u8; 2] = kani::any();
     let cut: usize = kani::any();
-    kani::assume(cut <= 3);
+    kani::assume(cut <= 2);
     let mut h = crc32fast::Hasher::new();
     h.update(&data[..cut]);
     h.update(&data[cut..]);
     assert!(h.finalize() == crc_of(&data));
-    kani::cover!(cut == 2);
+    kani::cover!(cut == 1);
 }
 
 /// K20-2: version gate
